@@ -247,9 +247,10 @@ def _create_event_reference(
         if event.action_uid is not None:
             if event.action_uid not in state.actions:
                 user_action = Action.from_event(event)
-                assert user_action is not None
-                state.actions.update({event.action_uid: user_action})
-                new_event.action = user_action
+                # (an event whose name is not one of an action's events has no action)
+                if user_action is not None:
+                    state.actions.update({event.action_uid: user_action})
+                    new_event.action = user_action
             else:
                 new_event.action = state.actions[event.action_uid]
     return {reference_name: new_event}
